@@ -443,10 +443,10 @@ func coordC17(c *Coord) {
 
 func init() {
 	register(&PropSpec{
-		ID:        "C17",
-		Level:     "model_checking",
-		Technique: "exhaustive enumeration of operation sequences (open/close/double close/dial/cancel/ping/blocked deliveries/shutdown) on two real nodes with real QUIC streams in a synctest bubble, one process per sequence; leak oracle = listener registries and goroutine count back at the baseline after a two-minute virtual settle; dead-locks classified from the goroutine dump of the frozen bubble",
-		Rule: "all sequences of length <=2 over 19 operations; length 3: quick = (creator, use, any operation) triples and listen-dial-x-y quadruples, thorough = all 6859 triples plus all quadruples over an 8-operation sub-alphabet. Every sequence is distinct and non-trivial. Close operations repeat on an already closed object (double close).",
+		ID:          "C17",
+		Level:       "model_checking",
+		Technique:   "exhaustive enumeration of operation sequences (open/close/double close/dial/cancel/ping/blocked deliveries/shutdown) on two real nodes with real QUIC streams in a synctest bubble, one process per sequence; leak oracle = listener registries and goroutine count back at the baseline after a two-minute virtual settle; dead-locks classified from the goroutine dump of the frozen bubble",
+		Rule:        "all sequences of length <=2 over 19 operations; length 3: quick = (creator, use, any operation) triples and listen-dial-x-y quadruples, thorough = all 6859 triples plus all quadruples over an 8-operation sub-alphabet. Every sequence is distinct and non-trivial. Close operations repeat on an already closed object (double close).",
 		Assumptions: []string{"operations are issued sequentially with 200 virtual ms between them; concurrent senders are modelled by deliveries left blocked on the object being closed", "goroutine count is taken process-wide in a process that runs only this bubble"},
 		Exec:        execC17,
 		Coord:       coordC17,
